@@ -302,8 +302,9 @@ def TBW.expectToken (w : TBW) (m : Meter) (now : Int) : Int :=
     (if now - w.lastAcquireTime < batchAcquireMaxDuration then 0 else expect)
   else if expect > batch then batch else expect
 
-/-- `maxInflightWrapper.ExpectToken()` with nothing in flight and nobody waiting -/
-def MIW.expectToken (w : MIW) : Int := if (0 : Int) > w.max then w.max else 0
+/-- `maxInflightWrapper.ExpectToken()` with `inflight = meter.CurrentInflight()` and nobody waiting: the requests in
+    flight, at most `max` -/
+def MIW.expectToken (w : MIW) (inflight : Int) : Int := if inflight > w.max then w.max else inflight
 
 /-- `uint32(lastQPS)` for the clamped observed rate `num/den ≥ 0` (truncation) -/
 def rateToU32 (num den : Int) : Int := toU32 (Int.tdiv num den)
@@ -486,12 +487,30 @@ structure Counter where
   lastSync : Int := 0
   deriving DecidableEq, Repr, Inhabited
 
+/-- object identities and in-flight counts of the max-in-flight buckets behind the limiters handed to requests.
+    `locGen`: the local limiter object (`localWrapper.Current()`, replaced on a type change); `remOuter`: the
+    `remoteWrapper` object (replaced when remote flow control is stopped and enabled again); `remInner`: the limiter
+    inside it (`GlobalCounterFlowControl`, replaced by `newFlowControl`; `Resize` keeps it). The counts are those of the
+    current objects (`maxinflight` count). -/
+structure Flight where
+  locGen : Nat := 0
+  locCount : Int := 0
+  remOuter : Nat := 0
+  remInner : Nat := 0
+  remCount : Int := 0
+  deriving DecidableEq, Repr, Inhabited
+
 /-- `flowControlCache` -/
 structure Cache where
   loc : Local := {}
   remote : Option Remote := none
   cnt : Counter := {}
+  fl : Flight := {}
   deriving DecidableEq, Repr, Inhabited
+
+/-- does `localWrapper.Sync` replace the local limiter object? -/
+def localRecreates (l : Local) (s : Schema) : Bool :=
+  decide (s ≠ l.config) && (match l.fc with | none => true | some fc => decide (fc.kind ≠ guessType s))
 
 /-- does `remoteWrapper.Sync` build a new limiter (`newFlowControl`: `globalCounter.Stop(name)`, and for the count
     strategy `globalCounter.Add(name, …)`: a new counter)? The path conditions of `remoteSync`. -/
@@ -505,6 +524,19 @@ def remoteRecreates (r : Remote) (loc : Schema) (i : Item) : Bool :=
       else if i.mi.isSome ∧ g.inner.kind = .mi then false
       else if i.tb.isSome ∧ g.inner.kind = .tb then false
       else true
+
+/-- which limiter admitted a request -/
+inductive Side | dflt | loc | rem
+  deriving DecidableEq, Repr, Inhabited
+
+/-- a request in flight keeps the limiter that `GetOrDefault` handed it: the system default, the local limiter OBJECT
+    (`gen = locGen` then), or the `remoteWrapper` (`gen = remOuter` then: its Release goes to whatever limiter is inside
+    the wrapper at that time) -/
+structure Handle where
+  id : Nat
+  side : Side
+  gen : Nat
+  deriving DecidableEq, Repr, Inhabited
 
 structure State where
   cache : Option Cache := none
@@ -521,6 +553,14 @@ structure State where
   clock : Int := 0
   /-- the token count of the request built by the last tick (reported only) -/
   lastReq : Option Int := none
+  /-- requests admitted and not finished: which object admitted them -/
+  handles : List Handle := []
+  /-- `meter.CurrentInflight()`: admitted through a metered limiter (everything but the system default) and unfinished -/
+  inflight : Int := 0
+  /-- result of the last `acquire` (reported only) -/
+  lastAdmit : Option Bool := none
+  /-- the construction parameters of the `upstreamLimiter` (`Load` reads them when a request asks for its limiter) -/
+  cfgv : Cfg := {}
   deriving DecidableEq, Repr, Inhabited
 
 /-- the limiter server's answer to the request of a tick: nothing for this flow control, or a result -/
@@ -548,6 +588,10 @@ inductive Op
   | meter (m : Meter)
   /-- an acquire result (or the time-out of `resetCheck`) reaches `remoteWrapper.SetLimit` -/
   | setLimit (r : Reply)
+  /-- a request (named `id`) asks the limiter `GetOrDefault` hands out: `TryAcquire`; it keeps the limiter if admitted -/
+  | acquire (id : Nat)
+  /-- the request `id` finishes: `Release` on the limiter it kept -/
+  | release (id : Nat)
   /-- a request went through the count wrapper: `globalCounter.Count` leaves an event -/
   | event
   /-- one round of `globalCounterManager.doAcquire` at time `now`: `acquireRequest` decides whether and what to ask
@@ -563,24 +607,31 @@ def isReady (st : State) : Bool :=
     | none => false
     | some h => h.ready
 
+/-- `EnableRemoteFlowControl` makes a new `remoteWrapper`; `newFlowControl` a new limiter inside it with an EMPTY
+    max-in-flight bucket (the requests in flight are forgotten); `Resize` keeps the bucket and its count -/
+def flightAfterSync (f : Flight) (enabled recreated : Bool) : Flight :=
+  let f := if enabled then { f with remOuter := f.remOuter + 1 } else f
+  if recreated then { f with remInner := f.remInner + 1, remCount := 0 } else f
+
 /-- `EnableRemoteFlowControl` (if needed) followed by `remoteWrapper.Sync(item)` -/
 def cacheRemoteSync (c : Cache) (i : Item) (nowS : Int) : Except String Cache := do
   let r' ← remoteSync (c.remote.getD {}) c.loc.config i
   pure { c with remote := some r',
-                cnt := if remoteRecreates (c.remote.getD {}) c.loc.config i then { event := false, lastSync := nowS } else c.cnt }
+                cnt := if remoteRecreates (c.remote.getD {}) c.loc.config i then { event := false, lastSync := nowS } else c.cnt,
+                fl := flightAfterSync c.fl c.remote.isNone (remoteRecreates (c.remote.getD {}) c.loc.config i) }
 
 /-- unix seconds of a time in ns (`time.Now().Unix()`) -/
 def unixS (now : Int) : Int := now / 1000000000
 
 /-- what `acquireRequest` asks for this flow control at `now`: `none` = no request. `g` is the count wrapper. -/
-def requestOf (g : GFC) (cnt : Counter) (m : Meter) (now : Int) : Option Int :=
+def requestOf (g : GFC) (cnt : Counter) (m : Meter) (infl : Int) (now : Int) : Option Int :=
   let due := decide (unixS now - cnt.lastSync > 2)
   if !(cnt.event || due) then none
   else
     let resync := !cnt.event && due
     match g with
     | .empty _ => none
-    | .miw w => some w.expectToken
+    | .miw w => some (w.expectToken infl)
     | .tbw w =>
       let hits := w.expectToken m now
       if hits ≤ 0 ∧ resync = false then none else some hits
@@ -590,6 +641,97 @@ def GFC.addAcquiring (g : GFC) (hits : Int) : GFC :=
   match g with
   | .tbw w => .tbw { w with tokenInflight := i32add w.tokenInflight hits }
   | g => g
+
+/-- which limiter `GetOrDefault(name)` hands to a request -/
+inductive Choice | dflt | loc | remote
+  deriving DecidableEq, Repr, Inhabited
+
+/-- `upstreamLimiter.Load` (through `GetOrDefault`) -/
+def load (cfg : Cfg) (st : State) : Choice :=
+  match st.cache with
+  | none => .dflt
+  | some c =>
+    match cfg.rateLimiter with
+    | .remote =>
+      if c.loc.config.strategy = .empty then .loc
+      else if c.loc.config.strategy = .loc then .loc
+      else if !cfg.hasCS then .loc
+      else if !isReady st then .loc
+      else if c.remote.isSome then .remote
+      else .loc
+    | .loc => .loc
+    | .other => .loc
+
+
+/-- `TryAcquire` of a plain limiter with `count` requests in its max-in-flight bucket -/
+def Lim.admits (l : Lim) (count : Int) : Bool :=
+  match l with
+  | .mi size => decide (count < size)
+  | _ => true
+
+/-- a request asks the limiter `GetOrDefault(name)` hands out (`Load` with the construction parameters) -/
+def acquireStep (st : State) (id : Nat) : State :=
+  if st.handles.any (·.id == id) then st
+  else
+    match load st.cfgv st, st.cache with
+    | .loc, some c =>
+      match c.loc.fc with
+      | none => { st with lastAdmit := some false }
+      | some fc =>
+        if fc.admits c.fl.locCount then
+          { st with lastAdmit := some true, inflight := st.inflight + 1,
+                    handles := { id := id, side := .loc, gen := c.fl.locGen } :: st.handles,
+                    cache := some { c with fl := { c.fl with locCount := c.fl.locCount + 1 } } }
+        else { st with lastAdmit := some false }
+    | .remote, some c =>
+      match c.remote.bind (·.fc) with
+      | none => { st with lastAdmit := some false }
+      | some g =>
+        -- maxInflightWrapper.TryAcquire: every path ends in the inner limiter's TryAcquire; the counter is told
+        -- (an event) unless the wrapper is degraded, over the limit, or `waitInflight+currentInflight > max`
+        let ev := match g with
+          | .miw w => !w.unavail && decide (w.overLimited ≤ 0) && decide (1 + st.inflight ≤ w.max)
+          | _ => false
+        let cnt := if ev then { c.cnt with event := true } else c.cnt
+        if g.inner.admits c.fl.remCount then
+          { st with lastAdmit := some true, inflight := st.inflight + 1,
+                    handles := { id := id, side := .rem, gen := c.fl.remOuter } :: st.handles,
+                    cache := some { c with cnt := cnt, fl := { c.fl with remCount := c.fl.remCount + 1 } } }
+        else { st with lastAdmit := some false, cache := some { c with cnt := cnt } }
+    | _, _ =>
+      -- the system default limiter: no limit, no meter
+      { st with lastAdmit := some true, handles := { id := id, side := .dflt, gen := 0 } :: st.handles }
+
+/-- `maxinflight` `Release`: the count never goes below zero -/
+def decCount (n : Int) : Int := if n ≤ 0 then n else n - 1
+
+/-- the request finishes: `Release` on the limiter it kept -/
+def releaseStep (st : State) (id : Nat) : State :=
+  match st.handles.find? (·.id == id) with
+  | none => st
+  | some h =>
+    let st := { st with handles := st.handles.filter (fun x => !(x.id == id)) }
+    match h.side with
+    | .dflt => st
+    | .loc =>
+      let st := { st with inflight := st.inflight - 1 }
+      match st.cache with
+      | some c =>
+        if h.gen = c.fl.locGen then { st with cache := some { c with fl := { c.fl with locCount := decCount c.fl.locCount } } }
+        else st
+      | none => st
+    | .rem =>
+      let st := { st with inflight := st.inflight - 1 }
+      match st.cache with
+      | some c =>
+        -- the remoteWrapper it kept releases into the limiter that is inside the wrapper NOW; a max-in-flight
+        -- count wrapper also tells its counter (`m.counter(-1)`)
+        if h.gen = c.fl.remOuter ∧ c.remote.isSome then
+          let ev := match c.remote.bind (·.fc) with | some (.miw _) => true | _ => false
+          { st with cache := some { c with fl := { c.fl with remCount := decCount c.fl.remCount },
+                                           cnt := if ev then { c.cnt with event := true } else c.cnt } }
+        else st
+      | none => st
 
 /-- a round without a request: `hasEvent()` consumed the pending event, nothing else changes -/
 def tickQuiet (st : State) (c : Cache) (now : Int) : State :=
@@ -616,7 +758,10 @@ def step (st : State) : Op → Except String State
     | some c =>
       match localSync c.loc s with
       | .error e => .error e
-      | .ok (l, stop) => .ok { st with cache := some { c with loc := l, remote := if stop then none else c.remote } }
+      | .ok (l, stop) =>
+        .ok { st with cache := some { c with loc := l, remote := if stop then none else c.remote,
+                                             fl := if localRecreates c.loc s
+                                                   then { c.fl with locGen := c.fl.locGen + 1, locCount := 0 } else c.fl } }
   | .shards n => .ok { st with shardCount := n }
   | .sync fail n leader now =>
     if fail then .ok { st with clock := now }
@@ -668,6 +813,8 @@ def step (st : State) : Op → Except String State
           match gfcSetLimit g c.loc.config st.meter r with
           | .error e => .error e
           | .ok (g', b) => .ok { st with cache := some { c with remote := some { rm with fc := some g' } }, lastRet := b }
+  | .acquire id => .ok (acquireStep st id)
+  | .release id => .ok (releaseStep st id)
   | .event =>
     match st.cache with
     | none => .ok st
@@ -689,7 +836,7 @@ def step (st : State) : Op → Except String State
         match rm.fc with
         | none => .ok (tickQuiet st c now)
         | some g =>
-          match requestOf g c.cnt st.meter now with
+          match requestOf g c.cnt st.meter st.inflight now with
           | none => .ok (tickQuiet st c now)
           | some hits =>
             match ans with
@@ -700,26 +847,6 @@ def step (st : State) : Op → Except String State
               | .ok (g', _) =>
                 -- (`send` drops SetLimit's result: it only decides whether another event is raised 200 ms later)
                 .ok (tickSent st c rm g' { event := false, lastSync := unixS now } now hits)
-
-/-- which limiter `GetOrDefault(name)` hands to a request -/
-inductive Choice | dflt | loc | remote
-  deriving DecidableEq, Repr, Inhabited
-
-/-- `upstreamLimiter.Load` (through `GetOrDefault`) -/
-def load (cfg : Cfg) (st : State) : Choice :=
-  match st.cache with
-  | none => .dflt
-  | some c =>
-    match cfg.rateLimiter with
-    | .remote =>
-      if c.loc.config.strategy = .empty then .loc
-      else if c.loc.config.strategy = .loc then .loc
-      else if !cfg.hasCS then .loc
-      else if !isReady st then .loc
-      else if c.remote.isSome then .remote
-      else .loc
-    | .loc => .loc
-    | .other => .loc
 
 /-- what the harness reads back after every operation -/
 structure Obs where
@@ -749,6 +876,8 @@ structure Obs where
   event : Bool := false
   lastSync : Int := 0
   req : Option Int := none
+  /-- the result of the last `acquire` -/
+  admitted : Option Bool := none
   deriving DecidableEq, Repr, Inhabited
 
 def observe (cfg : Cfg) (st : State) : Obs :=
@@ -761,7 +890,7 @@ def observe (cfg : Cfg) (st : State) : Obs :=
     | .remote => rlim
   let base : Obs := { choice := ch, lim := lim, rlim := rlim, ready := isReady st, ret := st.lastRet,
                       remoteConfig := st.cache.bind (fun c => c.remote.bind (·.remoteConfig)), leader := st.leader,
-                      req := st.lastReq }
+                      req := st.lastReq, admitted := st.lastAdmit }
   let cnt : Counter := match st.cache with | some c => c.cnt | none => {}
   match gfc with
   | none => base
@@ -784,7 +913,24 @@ def runFrom (cfg : Cfg) (st : State) : List Op → List Obs × Option String
       let r := runFrom cfg st' ops
       (observe cfg st' :: r.1, r.2)
 
-def run (cfg : Cfg) (ops : List Op) : List Obs × Option String := runFrom cfg {} ops
+/-- the freshly constructed `upstreamLimiter` -/
+def initState (cfg : Cfg) : State := { cfgv := cfg }
+
+def run (cfg : Cfg) (ops : List Op) : List Obs × Option String := runFrom cfg (initState cfg) ops
+
+/-- the in-flight counts of the current local and remote max-in-flight buckets (what a capacity probe sees missing) -/
+def countsOf (st : State) : Int × Int :=
+  match st.cache with
+  | some c => (c.fl.locCount, c.fl.remCount)
+  | none => (0, 0)
+
+/-- `countsOf` after every operation -/
+def countsFrom (st : State) : List Op → List (Int × Int)
+  | [] => []
+  | op :: ops =>
+    match step st op with
+    | .error _ => []
+    | .ok st' => countsOf st' :: countsFrom st' ops
 
 /-- the state after an operation list (`none` after a panic) -/
 def exec (st : State) : List Op → Option State
